@@ -205,8 +205,39 @@ func (r *Run) Result() *Result {
 		fns = append(fns, f)
 	}
 	sort.Strings(fns)
+	notes := r.Notes
+	if len(ThreadNotes) > 0 {
+		seen := map[string]bool{}
+		var xs []string
+		for _, n := range ThreadNotes {
+			if !seen[n] {
+				seen[n] = true
+				xs = append(xs, n)
+			}
+		}
+		sort.Strings(xs)
+		if len(xs) > 12 {
+			xs = append(xs[:12], fmt.Sprintf("... and %d more", len(xs)-12))
+		}
+		notes = append(append([]string{}, notes...), "guards on an error or boolean flag were threaded before lifting (core/thread.go): "+strings.Join(xs, "; "))
+	}
+	if len(ExitNotes) > 0 {
+		seen := map[string]bool{}
+		var xs []string
+		for _, n := range ExitNotes {
+			if !seen[n] {
+				seen[n] = true
+				xs = append(xs, n)
+			}
+		}
+		sort.Strings(xs)
+		if len(xs) > 12 {
+			xs = append(xs[:12], fmt.Sprintf("... and %d more", len(xs)-12))
+		}
+		notes = append(append([]string{}, notes...), "return blocks with merged results were split into one return per incoming edge (core/exits.go): "+strings.Join(xs, "; "))
+	}
 	return &Result{Prop: r.Prop, Tier: r.Tier, Obs: r.Obs, Floors: r.Floors, Rules: r.Rules, RuleList: r.RuleList,
-		Analysed: fns, Configs: []string{r.P.Config.Name}, Notes: r.Notes, Extra: map[string]any{}}
+		Analysed: fns, Configs: []string{r.P.Config.Name}, Notes: notes, Extra: map[string]any{}}
 }
 
 // Merge adds another configuration's result.
